@@ -120,6 +120,13 @@ pub enum E {
     Lst(Vec<E>),
     /// identity function call `id_k(e)`
     Pass(usize, Box<E>),
+    /// `setf_k(e)`: `fn setf_k(x: T) -> T { x.<path> = <const>; x }` — the callee
+    /// mutates ITS copy and returns it
+    PassSet(usize, Vec<(usize, String)>, Box<E>, Box<E>),
+    /// `if c { a } else { b }` as an expression
+    If(Box<E>, Box<E>, Box<E>),
+    /// `{ let t = e; t.<path> = f; t }` as an expression (t = variable index)
+    Block(usize, Vec<(usize, String)>, Box<E>, Box<E>),
     /// registered host value built by a host function: `mk_big(e)` / `mk_pt(e)`
     Host(&'static str, Box<E>),
     /// `list.get(i)`: `Some(element copy)` / `None`
@@ -170,6 +177,8 @@ struct Gen<'a> {
     helpers: Vec<String>,
     kinds: std::collections::BTreeSet<&'static str>,
     fresh: usize,
+    /// building the constant of a helper function: no variables, no arguments
+    closed: bool,
 }
 
 #[derive(Clone)]
@@ -269,10 +278,81 @@ impl<'a> Gen<'a> {
         }
     }
 
-    /// an expression of type `t`; `ctx` = the surrounding source gives the type
+    /// record-field paths below a type: (path, type)
+    fn type_paths(&self, t: &T, max: usize) -> Vec<(Vec<(usize, String)>, T)> {
+        let mut out = vec![];
+        let mut work: Vec<(Vec<(usize, String)>, T)> = vec![(vec![], t.clone())];
+        while let Some((p, t)) = work.pop() {
+            if !p.is_empty() {
+                out.push((p.clone(), t.clone()));
+            }
+            if p.len() >= max {
+                continue;
+            }
+            if let Some(fs) = self.fields_of(&t) {
+                for (k, (n, ft)) in fs.iter().enumerate() {
+                    let mut q = p.clone();
+                    q.push((k, n.clone()));
+                    work.push((q, ft.clone()));
+                }
+            }
+        }
+        out
+    }
+
+    /// an expression of type `t`, sometimes routed through control flow, a
+    /// block that mutates a local copy, or a callee that mutates its parameter
     fn build(&mut self, t: &T, depth: u32) -> E {
+        let aggregate = !matches!(t, T::Bool | T::Int(..) | T::Unit | T::Str | T::Host(_));
+        if self.closed || !aggregate || depth == 0 || !self.p.chance(1, 6) {
+            return self.build0(t, depth);
+        }
+        match self.p.below(3) {
+            0 => {
+                let c = if self.p.chance(1, 2) {
+                    E::Arg(NARGS - 1)
+                } else {
+                    E::Eq(self.p.chance(1, 2), Box::new(E::Arg(0)), Box::new(E::Lit(self.p.below(3) as i128)))
+                };
+                let a = self.build0(t, depth - 1);
+                let b = self.build0(t, depth - 1);
+                self.kinds.insert("if-expression");
+                E::If(Box::new(c), Box::new(a), Box::new(b))
+            }
+            k => {
+                let ps = self.type_paths(t, 2);
+                if ps.is_empty() {
+                    return self.build0(t, depth);
+                }
+                let (path, ft) = self.p.pick(&ps).clone();
+                let inner = self.build0(t, depth - 1);
+                if k == 1 {
+                    // block expression mutating a local copy; the new value may use variables
+                    let f = self.build0(&ft, 1);
+                    let tv = self.new_var(t.clone(), None);
+                    self.vars[tv].live = false;
+                    self.kinds.insert("block-expression");
+                    E::Block(tv, path, Box::new(inner), Box::new(f))
+                } else {
+                    self.closed = true;
+                    let c = self.build0(&ft, 1);
+                    self.closed = false;
+                    let ts = t.src(&self.env);
+                    let kx = self.helpers.len();
+                    let pth: String = path.iter().map(|(_, n)| format!(".{n}")).collect();
+                    let mut src = Src { env: &self.env, fresh: 0 };
+                    let cs = src.e(&c, None);
+                    self.helpers.push(format!("fn setf_{kx}(x: {ts}) -> {ts} {{ x{pth} = {cs}; x }}"));
+                    self.kinds.insert("callee-mutates-parameter");
+                    E::PassSet(kx, path, Box::new(c), Box::new(inner))
+                }
+            }
+        }
+    }
+
+    fn build0(&mut self, t: &T, depth: u32) -> E {
         // reuse a variable (or a field of one) of this type: that is a copy
-        if self.p.chance(2, 5) {
+        if !self.closed && self.p.chance(2, 5) {
             let cands: Vec<usize> = (0..self.vars.len())
                 .filter(|i| self.vars[*i].live && self.vars[*i].anon.is_none() && &self.vars[*i].ty == t)
                 .collect();
@@ -307,7 +387,7 @@ impl<'a> Gen<'a> {
         match t {
             T::Bool | T::Int(..) => {
                 let args: Vec<usize> = (0..NARGS).filter(|i| &ARG_TYPES[*i] == t).collect();
-                if !args.is_empty() && self.p.chance(1, 2) {
+                if !args.is_empty() && !self.closed && self.p.chance(1, 2) {
                     E::Arg(*self.p.pick(&args))
                 } else {
                     self.lit(t)
@@ -727,6 +807,12 @@ impl Src<'_> {
             E::Lst(xs) => format!("[{}]", xs.iter().map(|x| self.e(x, None)).collect::<Vec<_>>().join(", ")),
             E::Pass(k, x) => format!("id_{k}({})", self.e(x, None)),
             E::Host(f, x) => format!("{f}({})", self.e(x, None)),
+            E::PassSet(k, _, _, x) => format!("setf_{k}({})", self.e(x, None)),
+            E::If(c, a, b) => format!("if {} {{ {} }} else {{ {} }}", self.e(c, None), self.e(a, None), self.e(b, None)),
+            E::Block(tv, p, x, f) => {
+                let pth: String = p.iter().map(|(_, n)| format!(".{n}")).collect();
+                format!("{{ let {0} = {1}; {0}{pth} = {2}; {0} }}", vname(*tv), self.e(x, None), self.e(f, None))
+            }
             E::Get(l, i) => format!("{}.get({i})", self.e(l, None)),
             E::Try(k, _, x) => format!("try_{k}({})", self.e(x, None)),
             E::Eq(neg, a, b) => format!("({} {} {})", self.e(a, None), if *neg { "!=" } else { "==" }, self.e(b, None)),
@@ -901,6 +987,25 @@ fn spec_e(e: &E, args: &Args, out: &mut Vec<String>) {
         }
         E::Pass(_, x) => spec_e(x, args, out),
         E::Host(_, x) => spec_e(x, args, out),
+        E::PassSet(_, p, c, x) => {
+            out.extend(["M".into(), p.len().to_string()]);
+            out.extend(p.iter().map(|(k, _)| k.to_string()));
+            spec_e(c, args, out);
+            spec_e(x, args, out);
+        }
+        E::If(c, a, b) => {
+            out.push("I".into());
+            spec_e(c, args, out);
+            spec_e(a, args, out);
+            spec_e(b, args, out);
+        }
+        E::Block(_, p, x, f) => {
+            // `{ let t = x; t.p = f; t }`: x is evaluated first, then f
+            out.extend(["B".into(), p.len().to_string()]);
+            out.extend(p.iter().map(|(k, _)| k.to_string()));
+            spec_e(x, args, out);
+            spec_e(f, args, out);
+        }
         E::Get(l, i) => {
             out.extend(["G".into(), i.to_string()]);
             spec_e(l, args, out);
@@ -1001,7 +1106,7 @@ pub fn gen_program(p: &mut Prng) -> Program {
     let o = GenOpts { exotic: false, host: true };
     let n = 1 + p.below(4) as usize;
     let env = gen_env(p, n, &o);
-    let mut g = Gen { p, env, vars: vec![], helpers: vec![], kinds: Default::default(), fresh: 0 };
+    let mut g = Gen { p, env, vars: vec![], helpers: vec![], kinds: Default::default(), fresh: 0, closed: false };
     let mut body = vec![];
     let n = 6 + g.p.below(10);
     for _ in 0..n {
